@@ -290,7 +290,40 @@ func vh_C06_defer_bin() {
 	}
 }
 
-var vhRegistry = map[string]func(){"vh_C06_defer_bin": vh_C06_defer_bin, "vh_C06_unwind": vh_C06_unwind, "vh_C06_execute": vh_C06_execute, "vh_C06_reuse": vh_C06_reuse, "vh_C06_defer_args": vh_C06_defer_args, "vh_C06_defer_slice": vh_C06_defer_slice}
+// recover() is effective only when called directly by the deferred function:
+// it looks at the frame of the function that deferred it (f.anc), never further
+// up. Real code: the _recover generator and its closure, on a chain of three
+// frames each of which may or may not have a panic pending.
+func vh_C06_recover() {
+	vhResetClock()
+	vhStopAt = -1
+	i := vhNewInterp()
+	anyT := &itype{cat: interfaceT, str: "interface{}"}
+	n := &node{interp: i, kind: callExpr, findex: 0, typ: anyT}
+	_recover(n)
+	g1 := newFrame(i.frame, 1, i.runid()) // an outer function
+	g0 := newFrame(g1, 1, i.runid())      // the function that deferred f
+	f := newFrame(g0, 1, i.runid())       // the deferred function calling recover()
+	var slot interface{}
+	f.data[0] = reflect.ValueOf(&slot).Elem()
+	p0, p1 := vNondetBool("pendingInCaller"), vNondetBool("pendingFurtherUp")
+	if p0 {
+		g0.recovered = "panic in the deferring function"
+	}
+	if p1 {
+		g1.recovered = "panic further up"
+	}
+	vReach("C06.recover")
+	n.exec(f)
+	if p0 {
+		vAssert("C06.recover.returns-callers-panic", slot == "panic in the deferring function")
+	} else {
+		vAssert("C06.recover.nil-when-not-direct", slot == nil)
+	}
+	vAssert("C06.recover.clears-only-caller", g0.recovered == nil && (g1.recovered != nil) == p1)
+}
+
+var vhRegistry = map[string]func(){"vh_C06_recover": vh_C06_recover, "vh_C06_defer_bin": vh_C06_defer_bin, "vh_C06_unwind": vh_C06_unwind, "vh_C06_execute": vh_C06_execute, "vh_C06_reuse": vh_C06_reuse, "vh_C06_defer_args": vh_C06_defer_args, "vh_C06_defer_slice": vh_C06_defer_slice}
 
 var vhIntVars = map[string]*int{"vhMaxSteps": &vhMaxSteps, "vhNExec": &vhNExec}
 
